@@ -252,4 +252,38 @@ PLANS = {
                         "(no connectivity change since the last full drain)",
                         "ws transport is not drawn (tr=3 selects it): closing ws dialers trips transport defects outside C15"],
     },
+    "C01": {
+        "level": "exploration",
+        "rule": NT_RULE + "; C01: at least one message crossed the connection and was compared byte for byte with what "
+                          "was sent (c01_link: nng<->nng; c01_wire: nng<->raw wire peer; c01_cuts: every single cut "
+                          "position of a small frame on nng's read side and/or write side)",
+        "budget_s": {"quick": 50, "thorough": 900},
+        "scenarios": [
+            S("c01_link", 1100, 33000),
+            S("c01_wire", 1300, 39000),
+            S("c01_cuts", 600, 18000),
+        ],
+        "assumptions": [
+            "loss is not a violation ('or not at all'): it is counted (stats lost / probes c01_lost_no_fault, "
+            "c01_cut_msg_lost); a receiver-side observation is matched to the earliest not yet observed sent message "
+            "with exactly these bytes that lies after the last one observed on the same connection",
+            "the raw wire peer speaks SP/TCP, SP/IPC (path and abstract names), SP over a socketpair (socket://) and "
+            "RFC 6455 WebSocket both as client and as server; bytes from nng that do not parse under the transport's "
+            "framing are reported as altered_framing (what an SP peer would observe as an altered message), and a frame "
+            "that stops short while the library is quiescent and the connection is up as truncated",
+            "raw sockets: the bytes header||body are compared after removing what the receiver adds in front (pipe id "
+            "for raw REP, hop word for PAIR1); where nng puts the header/body boundary and what hop count it stores are "
+            "probes (c01_split_differs, c01_hop_differs), not assertions",
+            "the simulated kernel never offers less than 8 bytes of socket buffer: both ends of an SP connection write "
+            "their 8-byte greeting before they read",
+            "c01_cuts also asserts the statement's 'however the underlying byte stream is split' as a metamorphic "
+            "clause (class split_dependent): on an undisturbed connection, a frame that was delivered when handed over "
+            "whole must also be delivered when the same frame is split at the enumerated position(s); the wait is 5 s "
+            "of virtual time and nothing is claimed without the un-split reference delivery",
+            "c01_cuts enumerates every single cut position (read side: a piece is written only after nng consumed the "
+            "previous one; write side: the simulated kernel cuts nng's write at the armed stream offset) for frames up "
+            "to 130 bytes on the wire, pairs of read-side cuts for frames up to 24 bytes; message sizes, transports and "
+            "roles are drawn per run, not enumerated",
+        ],
+    },
 }
